@@ -27,6 +27,12 @@ type bfEnv struct {
 	// inline, when set, resolves a call to the body of a function whose result the decision delegates to
 	inline func(call *ast.CallExpr) (*ast.FuncDecl, *types.Info)
 	depth  int
+	// exprLocals: non-boolean locals assigned once from an expression (`opt := rule.FileOption()`); a predicate over
+	// the local is shown to the rule's atom function as a predicate over that expression
+	exprLocals map[types.Object]ast.Expr
+	// onAssign, when set, lets a rule give a meaning to an assignment statement (e.g. "appending the element to the
+	// result slice means: it qualifies")
+	onAssign func(as *ast.AssignStmt) (handled bool, value tri)
 }
 
 type bfOutcome struct {
@@ -63,7 +69,7 @@ func (e *bfEnv) eval(x ast.Expr) tri {
 			return triOr(e.eval(t.X), e.eval(t.Y))
 		}
 	}
-	if v, ok := e.atom(x); ok {
+	if v, ok := e.atom(e.resolve(x)); ok {
 		return v
 	}
 	// a predicate moved into a helper of the package: evaluate the helper's body under the same atoms (the atoms are
@@ -131,6 +137,28 @@ func (e *bfEnv) eval(x ast.Expr) tri {
 	return triUnknown
 }
 
+// resolve replaces locals that stand for an expression by that expression (one level, structurally).
+func (e *bfEnv) resolve(x ast.Expr) ast.Expr {
+	if len(e.exprLocals) == 0 {
+		return x
+	}
+	switch t := x.(type) {
+	case *ast.Ident:
+		if o := e.info.Uses[t]; o != nil {
+			if d, ok := e.exprLocals[o]; ok {
+				return d
+			}
+		}
+	case *ast.ParenExpr:
+		return &ast.ParenExpr{X: e.resolve(t.X)}
+	case *ast.UnaryExpr:
+		return &ast.UnaryExpr{Op: t.Op, X: e.resolve(t.X)}
+	case *ast.BinaryExpr:
+		return &ast.BinaryExpr{X: e.resolve(t.X), Op: t.Op, Y: e.resolve(t.Y)}
+	}
+	return x
+}
+
 // bind handles `x := <bool>` and `a, ok := m[k]`.
 func (e *bfEnv) bind(as *ast.AssignStmt, out *bfOutcome) bool {
 	if len(as.Rhs) == 1 && len(as.Lhs) == 2 {
@@ -161,7 +189,17 @@ func (e *bfEnv) bind(as *ast.AssignStmt, out *bfOutcome) bool {
 				}
 				return true
 			}
-			// a non-boolean local (path := imageFile.Path()): irrelevant to the decision
+			// a non-boolean local (path := imageFile.Path()): remembered as a name for its expression
+			if o := e.info.ObjectOf(id); o != nil {
+				if e.exprLocals == nil {
+					e.exprLocals = map[types.Object]ast.Expr{}
+				}
+				if _, dup := e.exprLocals[o]; dup {
+					delete(e.exprLocals, o) // reassigned: no longer a fixed name
+				} else {
+					e.exprLocals[o] = as.Rhs[0]
+				}
+			}
 			return true
 		}
 	}
@@ -185,6 +223,12 @@ func (e *bfEnv) run(stmts []ast.Stmt, out *bfOutcome) bool {
 			}
 			return true
 		case *ast.AssignStmt:
+			if e.onAssign != nil {
+				if handled, v := e.onAssign(x); handled {
+					out.Returned, out.Value = true, v
+					return true
+				}
+			}
 			if !e.bind(x, out) {
 				out.Undecided = "unsupported assignment " + short(exprString(x.Lhs[0]), 40)
 				return true
@@ -305,7 +349,7 @@ func bfEvalFunc(info *types.Info, body *ast.BlockStmt, atom func(ast.Expr) (tri,
 
 // bfEvalLoopBody evaluates the body of a search loop under one assignment: `continue` yields notQualified.
 func bfEvalLoopBody(info *types.Info, body *ast.BlockStmt, notQualified tri, atom func(ast.Expr) (tri, bool)) bfOutcome {
-	e := &bfEnv{info: info, atom: atom, lookup: func(ast.Expr) (tri, bool) { return triUnknown, false }, store: func(ast.Expr) (string, bool) { return "", false }, locals: map[types.Object]tri{}, continueAs: &notQualified, inline: bfInline}
+	e := &bfEnv{info: info, atom: atom, lookup: func(ast.Expr) (tri, bool) { return triUnknown, false }, store: func(ast.Expr) (string, bool) { return "", false }, locals: map[types.Object]tri{}, continueAs: &notQualified, inline: bfInline, onAssign: bfOnAssign}
 	var out bfOutcome
 	if !e.run(body.List, &out) && out.Undecided == "" {
 		// falling off the end of a loop body is the same as continue
@@ -317,3 +361,6 @@ func bfEvalLoopBody(info *types.Info, body *ast.BlockStmt, notQualified tri, ato
 // bfInline is the resolver used by the evaluators; rules that want helper bodies followed set it for the duration of
 // their evaluation (nil: calls that are not atoms stay undecided).
 var bfInline func(call *ast.CallExpr) (*ast.FuncDecl, *types.Info)
+
+// bfOnAssign is consulted by bfEvalLoopBody (set by a rule for the duration of its evaluation).
+var bfOnAssign func(as *ast.AssignStmt) (handled bool, value tri)
